@@ -24,7 +24,10 @@ import warnings
 from fractions import Fraction
 
 import core  # noqa: F401
-from rdflib import BNode, Graph, Literal, URIRef, Variable
+import re
+
+from rdflib import BNode, ConjunctiveGraph, Dataset, Graph, Literal, URIRef, Variable
+from rdflib.graph import ReadOnlyGraphAggregate
 from rdflib.namespace import XSD
 
 warnings.filterwarnings("ignore")
@@ -33,8 +36,8 @@ ID = "C08"
 LEAN_TARGETS = ["RV.C08.Props", "RV.C08.Audit"]
 AUDIT = "RV/C08/Audit.lean"
 DRIVER = "drv_c08"
-CASES = {"quick": 1400, "thorough": 40000, "search": 12000}
-RULE = ("random SELECT queries = (VALUES | VALUES+OPTIONAL over a graph | BGP | empty BGP) producing 0-9 solutions over 1-3 "
+CASES = {"quick": 1100, "thorough": 40000, "search": 12000}
+RULE = ("random SELECT queries (put as text, prepared object, with initNs/base/initBindings, to a Graph / Dataset / union / aggregate) = (VALUES | VALUES+OPTIONAL over a graph | BGP | empty BGP) producing 0-9 solutions over 1-3 "
         "variables with unbound cells, mixed kinds and datatypes, duplicates, falsy terms; modifiers DISTINCT/REDUCED, "
         "projection with (expr AS ?v), ORDER BY 0-3 keys ASC/DESC, LIMIT/OFFSET, GROUP BY 0-2 keys or the implicit group, "
         "the seven aggregates with/without DISTINCT, aggregates inside arithmetic, HAVING, ORDER BY on aggregates and aliases; "
@@ -243,6 +246,8 @@ def expr_text(e):
         return f"({expr_text(e[1])} {k} {expr_text(e[2])})"
     if k == "cmp":
         return f"({expr_text(e[2])} {e[1]} {expr_text(e[3])})"
+    if k == "and":  # two HAVING constraints
+        return f"{expr_text(e[1])} {expr_text(e[2])}"
     if k == "agg":
         _, kind, dist, arg, sep = e
         inner = "*" if arg == "*" else expr_text(arg)
@@ -254,8 +259,8 @@ def expr_text(e):
 
 
 def group_items(q):
-    """GROUP BY conditions as (variable name, expression or None)"""
-    return [(g, None) if isinstance(g, str) else (g[2], g[1]) for g in (q["group"] or [])]
+    """GROUP BY conditions as (variable name or None, expression or None): ?v | (E AS ?v) | (E)"""
+    return [(g, None) if isinstance(g, str) else (g[2], g[1]) if g[0] == "as" else (None, g[1]) for g in (q["group"] or [])]
 
 
 def pattern_text(case):
@@ -275,26 +280,91 @@ def pattern_text(case):
     raise ValueError(src)
 
 
-def query_text(case, sliced=True):
+KEYWORDS = ["SELECT", "DISTINCT", "REDUCED", "WHERE", "GROUP BY", "HAVING", "ORDER BY", "ASC", "DESC", "LIMIT", "OFFSET", "AS",
+            "COUNT", "SUM", "AVG", "MIN", "MAX", "SAMPLE", "GROUP_CONCAT", "VALUES", "OPTIONAL", "UNDEF"]
+
+
+def query_text(case, sliced=True, wrap=None):
+    """the SPARQL text; `style` varies the spelling only (bare ORDER BY keys, OFFSET before LIMIT, lower-case keywords),
+    `wrap` puts the whole query into a sub-select, `call` modes initNs/base abbreviate the IRIs"""
     q = case["q"]
-    proj = " ".join("?" + p[1] if p[0] == "v" else f"({expr_text(p[1])} AS ?{p[2]})" for p in q["proj"])
+    style = case.get("style") or {}
+    proj = "*" if q.get("star") else \
+        " ".join("?" + p[1] if p[0] == "v" else f"({expr_text(p[1])} AS ?{p[2]})" for p in q["proj"])
     s = f"SELECT {q['mod'] + ' ' if q['mod'] else ''}{proj} WHERE {{ {pattern_text(case)} }}"
     if q["group"] is not None:
-        s += " GROUP BY " + " ".join("?" + n if e is None else f"({expr_text(e)} AS ?{n})" for n, e in group_items(q))
+        s += " GROUP BY " + " ".join("?" + n if e is None else f"({expr_text(e)})" if n is None else f"({expr_text(e)} AS ?{n})"
+                                     for n, e in group_items(q))
     if q["having"] is not None:
         s += " HAVING " + expr_text(q["having"])
     if q["order"]:
-        s += " ORDER BY " + " ".join(("DESC(%s)" if d else "ASC(%s)") % expr_text(e) for e, d in q["order"])
+        def key(e, d):
+            if d:
+                return "DESC(%s)" % expr_text(e)
+            if style.get("bare_order") and e[0] in ("v", "+", "-"):
+                return expr_text(e)  # `?a` or `(?a + 1)`: ascending is the default
+            return "ASC(%s)" % expr_text(e)
+        s += " ORDER BY " + " ".join(key(e, d) for e, d in q["order"])
     if sliced:
+        parts = []
         if q["limit"] is not None:
-            s += f" LIMIT {q['limit']}"
+            parts.append(f"LIMIT {q['limit']}")
         if q["offset"] is not None:
-            s += f" OFFSET {q['offset']}"
+            parts.append(f"OFFSET {q['offset']}")
+        if style.get("offset_first"):
+            parts.reverse()
+        s += "".join(" " + x for x in parts)
+    if case.get("wrap") if wrap is None else wrap:
+        s = "SELECT %s WHERE { { %s } }" % (" ".join("?" + (p[1] if p[0] == "v" else p[2]) for p in q["proj"]), s)
+    if style.get("lower"):
+        for kw in KEYWORDS:
+            s = re.sub(r"(?<![A-Za-z_?:/<\"])%s(?![A-Za-z_])" % kw.replace(" ", r"\s+"), kw.lower(), s)
+    mode = (case.get("call") or {}).get("mode")
+    if mode == "initNs":
+        s = re.sub(r"<%s([A-Za-z0-9]+)>" % re.escape(E_NS), r"e:\1", s)
+        s = re.sub(r"\^\^<%s([A-Za-z]+)>" % re.escape(XS), r"^^xsd:\1", s)
+    elif mode == "base":
+        s = re.sub(r"<%s([A-Za-z0-9]+)>" % re.escape(E_NS), r"<\1>", s)
     return s
 
 
+def call_kwargs(case):
+    c = case.get("call") or {}
+    if c.get("mode") == "initNs":
+        return {"initNs": {"e": E_NS, "xsd": XS}}
+    if c.get("mode") == "base":
+        return {"base": E_NS}
+    if c.get("mode") == "initBindings":
+        return {"initBindings": {c["var"]: mk_term(c["val"])}}
+    return {}
+
+
 def build_graph(case):
-    g = Graph()
+    """the object the query is put to: a Graph, a ConjunctiveGraph / Dataset (default graph), a Dataset with
+    default_union over two named graphs, or a ReadOnlyGraphAggregate of two graphs; every triple is in one graph"""
+    kind = case.get("store") or "graph"
+    if kind == "graph":
+        top, parts = Graph(), None
+    elif kind == "cg":
+        top, parts = ConjunctiveGraph(), None
+    elif kind == "dataset":
+        top, parts = Dataset(), None
+    elif kind == "union":
+        top = Dataset(default_union=True)
+        parts = [top.graph(URIRef(E_NS + "g1")), top.graph(URIRef(E_NS + "g2"))]
+    elif kind == "aggregate":
+        parts = [Graph(), Graph()]
+        top = ReadOnlyGraphAggregate(parts)
+    else:
+        raise ValueError(kind)
+    n = [0]
+
+    def add(t):
+        if parts is None:
+            top.add(t)
+        else:  # the type triple and the cells of one row end up in different graphs
+            parts[n[0] % 2].add(t)
+            n[0] += 1
     vs, rows, src = case["vars"], case["rows"], case["src"]
     if src in ("optional", "bgp"):
         seen = set()
@@ -303,16 +373,21 @@ def build_graph(case):
             if node in seen:
                 continue
             seen.add(node)
-            g.add((node, URIRef(E_NS + "t"), URIRef(E_NS + "T")))
+            add((node, URIRef(E_NS + "t"), URIRef(E_NS + "T")))
             for v, c in zip(vs[:-1], r[:-1]):
                 if c is not None:
-                    g.add((node, URIRef(f"{E_NS}p{v}"), mk_term(c)))
-    return g
+                    add((node, URIRef(f"{E_NS}p{v}"), mk_term(c)))
+    return top
 
 
 def input_solutions(case, g=None):
     """the pattern's solution sequence as lists of termdescs aligned with case['vars'].
     For `bgp` the order is taken from rdflib (SPARQL leaves it open); the multiset is checked by the caller."""
+    c = case.get("call") or {}
+    if c.get("mode") == "initBindings":  # a pre-bound variable: solutions binding it otherwise drop out, the others get it
+        i = case["vars"].index(c["var"])
+        return [list(r[:i]) + [c["val"]] + list(r[i + 1:]) for r in case["rows"]
+                if r[i] is None or canon_desc(r[i]) == canon_desc(c["val"])]
     if case["src"] != "bgp":
         return [list(r) for r in case["rows"]]
     g = g or build_graph(case)
@@ -405,7 +480,7 @@ class Ev:
     def __init__(self, case):
         self.case = case
         self.lex = {}
-        for r in case["rows"]:
+        for r in case["rows"] + [[(case.get("call") or {}).get("val")]]:
             for c in r:
                 if c is not None:
                     self.lex[canon_desc(c)] = lex_of(c)
@@ -457,6 +532,12 @@ class Ev:
             for a in self.ev(e[2], sol, group):
                 for b in self.ev(e[3], sol, group):
                     out |= self.cmp(e[1], a, b)
+            return out
+        if k == "and":
+            out = set()
+            for a in self.ev(e[1], sol, group):
+                for b in self.ev(e[2], sol, group):
+                    out.add("B:0" if a == "B:0" else (b if b in ("B:0", "B:1") else "-") if a == "B:1" else "-")
             return out
         if k == "agg":
             return self.agg(e, group if group is not None else [sol])
@@ -592,14 +673,14 @@ def build_items(case, sols):
             idx = {}
             for s in sol_dicts:
                 s = dict(s)
-                for n, e in gi:  # GROUP BY (expr AS ?k) extends the solution before grouping
-                    if e is not None:
-                        val = next(iter(ev.ev(e, s)))
-                        if val != "-":
-                            s[n] = val
-                key = tuple(s.get(n, "-") for n, _e in gi)
-                idx.setdefault(key, []).append(s)
-            groups = [({n: c for (n, _e), c in zip(gi, key) if c != "-"}, rows) for key, rows in idx.items()]
+                key = []
+                for n, e in gi:  # GROUP BY (expr AS ?k) extends the solution before grouping; (expr) is only a key
+                    val = s.get(n, "-") if e is None else next(iter(ev.ev(e, s)))
+                    if e is not None and n is not None and val != "-":
+                        s[n] = val
+                    key.append(val)
+                idx.setdefault(tuple(key), []).append(s)
+            groups = [({n: c for (n, _e), c in zip(gi, key) if c != "-" and n is not None}, rows) for key, rows in idx.items()]
         ctxs = [(kb, rows) for kb, rows in groups]
     else:
         ctxs = [(s, None) for s in sol_dicts]
@@ -782,9 +863,27 @@ def check_result(case, sols, vars_, rows, raw_rows):
 # ------------------------------------------------------------------ running rdflib
 
 
-def run_query(g, text):
-    res = g.query(text)
+class Unstable(Exception):
+    pass
+
+
+def run_query(g, text, case=None, star=False):
+    kw = call_kwargs(case) if case else {}
+    if case and (case.get("call") or {}).get("mode") == "prepared":
+        from rdflib.plugins.sparql import prepareQuery
+        pq = prepareQuery(text)  # one query object, evaluated three times
+        answers = []
+        for _ in range(3):
+            r = g.query(pq)
+            answers.append(([str(v) for v in r.vars], [sorted((str(k), v.n3()) for k, v in b.items() if v is not None) for b in r.bindings]))
+        if answers[0] != answers[1] or answers[0] != answers[2]:
+            raise Unstable("the prepared query answered differently when evaluated again")
+        res = g.query(pq)
+    else:
+        res = g.query(text, **kw)
     vars_ = [str(v) for v in res.vars]
+    if star:
+        vars_ = sorted(vars_)  # SELECT *: the order of the variables is not defined
     bindings = list(res.bindings)
     rows, raw, extra = [], [], False
     for b in bindings:
@@ -820,7 +919,7 @@ def obs_lines(case, vars_, rows, exc=None):
         return ["exc:" + exc]
     sliced = q["limit"] is not None or q["offset"] is not None
     line0 = "vars " + " ".join(vars_)
-    if q["order"]:
+    if q["order"] and not case.get("wrap"):  # (a sub-select's order does not reach the outer query)
         body = seq_canon(case, vars_, rows)
         return [line0, "seq " + " | ".join(",".join(r) for r in body)]
     if sliced:  # LIMIT/OFFSET without ORDER BY: which rows is not determined, only how many (membership: checker)
@@ -836,7 +935,7 @@ def run_impl(case):
              "grouped": int(is_grouped(q)), "group_keys_" + str(None if q["group"] is None else len(q["group"])): 1,
              "having": int(q["having"] is not None),
              "having_without_aggregate": int(q["having"] is not None and not has_agg(q["having"])),
-             "group_by_expr_as": int(any(e is not None for _n, e in group_items(q))),
+             "group_by_expr_as": int(any(e is not None and n is not None for n, e in group_items(q))),
              "order_by_unselected_key": int(any(e[0] == "v" and e[1] in [n for n, _ in group_items(q)] and
                                                 ["v", e[1]] not in q["proj"] for e, _d in q["order"]))}
     for p in q["proj"]:
@@ -844,16 +943,30 @@ def run_impl(case):
             stats["agg_" + a[1] + ("_distinct" if a[2] else "")] = stats.get("agg_" + a[1] + ("_distinct" if a[2] else ""), 0) + 1
     viol = []
     # 0. the input the modifiers work on
+    call = case.get("call") or {}
+    star = bool(q.get("star"))
+    for k_, v_ in (("call_" + call.get("mode", "text"), 1), ("store_" + (case.get("store") or "graph"), 1), ("wrap_subselect", int(bool(case.get("wrap")))),
+                   ("select_star", int(star)), ("having_two_constraints", int(bool(q["having"]) and q["having"][0] == "and")),
+                   ("group_by_bare_expr", int(any(n is None for n, _e in group_items(q)))),
+                   ("never_bound_var", int("u" in _all_vars(q))),
+                   *[("style_" + k2, int(bool(v2))) for k2, v2 in (case.get("style") or {}).items()]):
+        stats[k_] = v_
     sols = input_solutions(case, g)
-    pv, prow, _raw, _x = run_query(g, "SELECT %s WHERE { %s }" % (" ".join("?" + v for v in case["vars"]), pattern_text(case)))
+    ptext = "SELECT %s WHERE { %s }" % (" ".join("?" + v for v in case["vars"]), pattern_text(case))
+    pv, prow, _raw, _x = run_query(g, ptext, case if call.get("mode") == "initBindings" else None)
     want_in = [tuple(canon_desc(c) for c in r) for r in sols]
-    if sorted(prow) != sorted(tuple(canon_desc(c) for c in r) for r in case["rows"]) or (case["src"] != "bgp" and prow != want_in):
-        return {"obs": ["input-differs"], "viol": [], "nontrivial": False, "key": "input", "stats": {"input_differs": 1}}
-    text_full = query_text(case, sliced=False)
-    text = query_text(case)
+    ordered_src = case["src"] != "bgp" and (case.get("store") or "graph") in ("graph", "cg", "dataset", "union", "aggregate")
+    if sorted(prow) != sorted(want_in) or (ordered_src and prow != want_in):
+        return {"obs": ["input-differs"], "viol": [], "nontrivial": False, "key": "input",
+                "stats": {"input_differs": 1, "input_differs_" + call.get("mode", "text") + "_" + (case.get("store") or "graph"): 1}}
+    text_full = query_text(case, sliced=False, wrap=False)
+    text = query_text(case, wrap=False)
     sliced = text != text_full
     try:
-        fvars, frows, fraw, fextra = run_query(g, text_full)
+        fvars, frows, fraw, fextra = run_query(g, text_full, case, star)
+    except Unstable as e:
+        return {"obs": obs_lines(case, [], [], "Unstable"), "nontrivial": True, "key": text,
+                "viol": [f"reuse: {e} :: {text_full}"], "stats": stats}
     except Exception as e:  # noqa: BLE001
         stats["exc_" + type(e).__name__] = 1
         return {"obs": obs_lines(case, [], [], type(e).__name__), "nontrivial": True, "key": text,
@@ -864,7 +977,7 @@ def run_impl(case):
     vars_, rows = fvars, frows
     if sliced:
         try:
-            vars_, rows, _raw2, _e2 = run_query(g, text)
+            vars_, rows, _raw2, _e2 = run_query(g, text, case, star)
         except Exception as e:  # noqa: BLE001
             return {"obs": obs_lines(case, [], [], type(e).__name__), "nontrivial": True, "key": text,
                     "viol": [f"abort: query raised {type(e).__name__}: {str(e)[:120]} :: {text}"], "stats": stats}
@@ -884,6 +997,19 @@ def run_impl(case):
                 else:
                     viol.append("slice: sliced answer contains a row (or more copies of it) than the unsliced answer")
                     break
+    if case.get("wrap"):
+        # the same query as a sub-select: ToMultiSet of its answer — the same bag (only the count if the slice is open)
+        wtext = query_text(case, wrap=True)
+        try:
+            wvars, wrows, _r3, _e3 = run_query(g, wtext, case, star)
+        except Exception as e:  # noqa: BLE001
+            return {"obs": obs_lines(case, [], [], type(e).__name__), "nontrivial": True, "key": wtext,
+                    "viol": [f"abort: query raised {type(e).__name__}: {str(e)[:120]} :: {wtext}"], "stats": stats}
+        if wvars != vars_:
+            viol.append(f"subselect: outer Result.vars {wvars}, inner {vars_}")
+        elif len(wrows) != len(rows) or (not (sliced and not q["order"]) and sorted(wrows) != sorted(rows)):
+            viol.append(f"subselect: as a sub-select the query yields {sorted(wrows)[:6]}, alone {sorted(rows)[:6]}")
+        rows = wrows
     # non-triviality
     nt = bool(sols) and (
         (q["mod"] and len(frows) < len(sols)) or (q["order"] and len(set(frows)) > 1) or (sliced and len(rows) < len(frows))
@@ -892,6 +1018,19 @@ def run_impl(case):
     stats["answer_rows"] = len(rows)
     return {"obs": obs_lines(case, vars_, rows), "viol": viol, "nontrivial": bool(nt), "key": text + repr(case["rows"]),
             "stats": stats}
+
+
+def _all_vars(q):
+    out = set()
+    for p in q["proj"]:
+        out |= {p[1]} if p[0] == "v" else _vars_in(p[1])
+    for n, e in group_items(q):
+        out |= ({n} if n and e is None else set()) | (_vars_in(e) if e is not None else set())
+    if q["having"] is not None:
+        out |= _vars_in(q["having"])
+    for e, _d in q["order"]:
+        out |= _vars_in(e)
+    return out
 
 
 def _aggs_in(e):
@@ -915,8 +1054,10 @@ CMP_TOK = {"<": "lt", ">": "gt", "=": "eq", "!=": "ne", "<=": "le", ">=": "ge"}
 def var_index(case):
     names = list(case["vars"])
     for n, e in group_items(case["q"]):
-        if e is not None and n not in names:
+        if e is not None and n is not None and n not in names:
             names.append(n)
+    if "u" in _all_vars(case["q"]) and "u" not in names:
+        names.append("u")  # a variable the pattern never binds
     for p in case["q"]["proj"]:
         if p[0] == "e" and p[2] not in names:
             names.append(p[2])
@@ -933,6 +1074,8 @@ def expr_toks(e, ix):
         return [k] + expr_toks(e[1], ix) + expr_toks(e[2], ix)
     if k == "cmp":
         return ["cmp", CMP_TOK[e[1]]] + expr_toks(e[2], ix) + expr_toks(e[3], ix)
+    if k == "and":
+        return ["and"] + expr_toks(e[1], ix) + expr_toks(e[2], ix)
     if k == "agg":
         _, kind, dist, arg, sep = e
         return ["agg", AGG_TOK[kind], "1" if dist else "0", "-" if sep is None else "s" + cps(sep)] + \
@@ -954,7 +1097,7 @@ def model_lines(case):
     else:
         t.append(str(len(q["group"])))
         for n, e in group_items(q):
-            t += ["gv", str(ix[n])] if e is None else ["ga", str(ix[n])] + expr_toks(e, ix)
+            t += ["gv", str(ix[n])] if e is None else ["ge"] + expr_toks(e, ix) if n is None else ["ga", str(ix[n])] + expr_toks(e, ix)
     t.append(str(len(q["proj"])))
     for p in q["proj"]:
         t += ["pv", str(ix[p[1]])] if p[0] == "v" else ["pe", str(ix[p[2]])] + expr_toks(p[1], ix)
@@ -1058,8 +1201,37 @@ def gen_case(rng, tier, i):
     vars_ = names + (["r"] if src in ("optional", "bgp") else [])
     if src == "empty" and nv == 1:
         vars_ = ["a"]
-    q = gen_query(rng, vars_, names, profiles)
-    return {"src": src, "vars": vars_, "rows": rows, "q": q}
+    pa = 0.12 if tier == "thorough" else 0.05  # share of each public-surface axis (design.d/C08.md, Surface audit)
+    q = gen_query(rng, vars_, names, profiles, pa)
+    case = {"src": src, "vars": vars_, "rows": rows, "q": q}
+    # -- how the query is put: keyword options, a prepared query object evaluated three times
+    if rng.random() < 2 * pa:
+        modes = ["prepared", "prepared", "initNs", "base"] + (["initBindings", "initBindings"] if src == "values" else [])
+        mode = rng.choice(modes)
+        case["call"] = {"mode": mode}
+        if mode == "initBindings":
+            i = rng.randrange(len(names))
+            col = [r[i] for r in rows if r[i] is not None]
+            val = rng.choice(col) if col and rng.random() < 0.75 else gen_term(rng, profiles[i], False)
+            case["call"].update({"var": names[i], "val": val})
+            if not input_solutions(case):  # nothing left: rdflib's unbound row for an empty GROUP BY would carry the pre-bound value
+                del case["call"]
+    # -- what the query is put to
+    if rng.random() < 2 * pa:
+        case["store"] = rng.choice(["cg", "dataset", "union", "union", "aggregate", "aggregate"])
+    # -- spelling
+    style = {k: True for k in ("bare_order", "offset_first", "lower") if rng.random() < pa}
+    if style:
+        case["style"] = style
+    # -- the whole query as a sub-select
+    if rng.random() < pa:
+        case["wrap"] = True
+    # -- SELECT *
+    if not is_grouped(q) and all(p[0] == "v" for p in q["proj"]) and "u" not in _all_vars(q) \
+            and (case.get("call") or {}).get("mode") != "initBindings" and rng.random() < 2 * pa:
+        q["star"] = True
+        q["proj"] = [["v", v] for v in sorted(vars_)]
+    return case
 
 
 def gen_const(rng):
@@ -1091,7 +1263,7 @@ def gen_agg(rng, names, profiles):
     return ["agg", kind, dist, arg, sep]
 
 
-def gen_query(rng, vars_, names, profiles):
+def gen_query(rng, vars_, names, profiles, pa=0.05):
     q = {"mod": rng.choice([None, None, None, "DISTINCT", "DISTINCT", "REDUCED"]), "proj": [], "group": None,
          "having": None, "order": [], "limit": None, "offset": None}
     aliases = ["x", "y", "z"]
@@ -1101,13 +1273,18 @@ def gen_query(rng, vars_, names, profiles):
         kvars = [] if r < 0.3 else [rng.choice(vars_)] if r < 0.8 else rng.sample(vars_, min(2, len(vars_)))
         group, keys = [], []
         for j, k in enumerate(kvars):
-            if rng.random() < 0.2:  # GROUP BY (expr AS ?k)
+            if rng.random() < 2 * pa:  # GROUP BY (expr): a key that has no name
+                group.append(["ex", [rng.choice("+-"), ["v", k], ["c", gen_const(rng)]]])
+            elif rng.random() < 0.2:  # GROUP BY (expr AS ?k)
                 e = ["v", k] if rng.random() < 0.4 else [rng.choice("+-"), ["v", k], ["c", gen_const(rng)]]
                 group.append(["as", e, "k" + str(j)])
                 keys.append("k" + str(j))
             else:
                 group.append(k)
                 keys.append(k)
+        if group and rng.random() < pa:  # a key the pattern never binds
+            group.append("u")
+            keys.append("u")
         q["group"] = group or None
         shown = [k for k in keys if rng.random() < 0.7]
         for k in shown:
@@ -1149,6 +1326,12 @@ def gen_query(rng, vars_, names, profiles):
             else:  # key and aggregate together
                 k = ["v", rng.choice(keys)]
                 q["having"] = ["cmp", op, a, k] if rng.random() < 0.5 else ["cmp", op, [rng.choice("+-"), a, k], ["c", gen_const(rng)]]
+        if q["having"] is not None and rng.random() < 3 * pa:  # HAVING (c1) (c2)
+            a2 = gen_agg(rng, names, profiles)
+            while a2[1] not in ("COUNT", "SUM", "AVG"):
+                a2 = gen_agg(rng, names, profiles)
+            h2 = ["cmp", rng.choice(["<", ">", "=", "!=", "<=", ">="]), a2, ["c", gen_const(rng)]]
+            q["having"] = ["and", q["having"], h2] if rng.random() < 0.5 else ["and", h2, q["having"]]
         pool = [["v", k] for k in keys] * 2 + [["v", p[2]] for p in q["proj"] if p[0] == "e"] * 2
         nk = rng.choice([0, 0, 1, 1, 2, 3])
         use_agg_key = rng.random() < 0.3
@@ -1169,6 +1352,9 @@ def gen_query(rng, vars_, names, profiles):
             q["proj"].insert(rng.randint(0, len(q["proj"])), ["e", e, "x"])
         pool = [["v", v] for v in vars_] * 3 + [["v", p[2]] for p in q["proj"] if p[0] == "e"] * 2 + \
             [["+", ["v", rng.choice(names)], ["c", gen_const(rng)]]]
+        if rng.random() < pa:  # a variable the pattern never binds: an unbound column / sort key
+            q["proj"].append(["v", "u"])
+            pool += [["v", "u"]] * 3
         for _ in range(rng.choice([0, 1, 1, 2, 2, 3])):
             q["order"].append([rng.choice(pool), rng.random() < 0.4])
     if rng.random() < 0.35:
